@@ -19,28 +19,35 @@ From PV Require Import Base.U32 Base.Scalar Shape.ShapeImpl Shape.ShapeSpec Rand
 Import ListNotations.
 
 (* ---- invalid parameters (p outside [0,1], upper < lower, sd <= 0) are rejected -------------
-   For non-NaN arguments the front ends accept EXACTLY 0 <= p <= 1, lower <= upper, sd > 0. *)
+   The front ends accept EXACTLY: a non-NaN p with 0 <= p <= 1; non-NaN bounds lower <= upper whose
+   binary32 difference upper - lower is finite (hence finite bounds); a non-NaN sd > 0.
+   (device.cc after commits f9e31df / 922e9fd: `!(p >= 0 && p <= 1)`,
+   `!(lower <= upper) || !std::isfinite(upper - lower)`, `!(sd > 0)`.) *)
 Theorem C17_validation_spec :
-  (forall p, bernoulli_rejects (FOrd p) = false <-> (0 <= p <= ONE_ORD)%Z) /\
-  (forall lo up, uniform_rejects (FOrd lo) (FOrd up) = false <-> (lo <= up)%Z) /\
-  (forall sd, normal_rejects (FOrd sd) = false <-> (0 < sd)%Z).
+  (forall p, bernoulli_rejects p = false <-> exists z, p = FOrd z /\ (0 <= z <= ONE_ORD)%Z) /\
+  (forall lo up, uniform_rejects lo up = false <->
+     exists a b, lo = FOrd a /\ up = FOrd b /\ (a <= b)%Z /\ span_finite (FOrd a) (FOrd b) = true) /\
+  (forall sd, normal_rejects sd = false <-> exists z, sd = FOrd z /\ (0 < z)%Z).
 Proof. exact validation_spec. Qed.
 Print Assumptions C17_validation_spec.
 
-(* OBSERVATION (candidate finding, not claimed as a violation here): the checks are written
-   `p < 0 || p > 1`, `upper < lower`, `sd <= 0`, so NaN arguments pass all of them ... *)
-Theorem C17_nan_accepted :
-  bernoulli_rejects FNaN = false /\
-  (forall x, uniform_rejects FNaN x = false /\ uniform_rejects x FNaN = false) /\
-  normal_rejects FNaN = false.
-Proof. exact nan_accepted. Qed.
-Print Assumptions C17_nan_accepted.
+(* in particular NaN parameters are rejected ... *)
+Theorem C17_nan_rejected :
+  bernoulli_rejects FNaN = true /\
+  (forall x, uniform_rejects FNaN x = true /\ uniform_rejects x FNaN = true) /\
+  normal_rejects FNaN = true.
+Proof. exact nan_rejected. Qed.
+Print Assumptions C17_nan_rejected.
 
-(* ... and so do the bounds (-inf, +inf) and sd = +inf. *)
-Theorem C17_inf_accepted :
-  uniform_rejects (FOrd (- INF_ORD)) (FOrd INF_ORD) = false /\ normal_rejects (FOrd INF_ORD) = false.
-Proof. exact inf_accepted. Qed.
-Print Assumptions C17_inf_accepted.
+(* ... and so are infinite bounds and finite bounds whose difference overflows binary32:
+   (-3e38f, 3e38f) and (-FLT_MAX, FLT_MAX) are rejected, (-(2^127 - 2^103), 2^127 - 2^103) is accepted *)
+Theorem C17_nonfinite_span_rejected :
+  (forall x, uniform_rejects (FOrd (- INF_ORD)) x = true /\ uniform_rejects x (FOrd INF_ORD) = true) /\
+  uniform_rejects (FOrd (-2137108966)) (FOrd 2137108966) = true /\
+  uniform_rejects (FOrd (-2139095039)) (FOrd 2139095039) = true /\
+  uniform_rejects (FOrd (-2130706431)) (FOrd 2130706431) = false.
+Proof. exact nonfinite_span_rejected. Qed.
+Print Assumptions C17_nonfinite_span_rejected.
 
 (* A request is rejected exactly when its validation fails, and a rejected request draws nothing. *)
 Theorem C17_rejected_draws_nothing {G} (O : oracle G) g r :
@@ -54,7 +61,7 @@ Print Assumptions C17_rejected_draws_nothing.
    lower is delivered unchanged, lower itself is replaced by upper. *)
 Theorem C17_uniform_fixup_range {G} (O : oracle G) (HO : oracle_ok O) g lo up n ys g' :
   step O g (RUnif (FOrd lo) (FOrd up) n) = (Values ys, g') ->
-  (lo <= up)%Z /\ length ys = N.to_nat n /\
+  ((lo <= up)%Z /\ (Z.abs lo < INF_ORD)%Z /\ (Z.abs up < INF_ORD)%Z) /\ length ys = N.to_nat n /\
   Forall (fun y => exists z, y = FOrd z /\
                    ((lo < up)%Z -> (lo < z <= up)%Z) /\ (lo = up -> z = up)) ys /\
   Forall2 (fun x y => x = y \/ (x = FOrd lo /\ y = FOrd up))
@@ -166,16 +173,16 @@ Theorem C17_identity_accepted {T} (C : conv T) s : wf s -> is_matrix s = true ->
 Proof. exact (identity_accepted C s). Qed.
 Print Assumptions C17_identity_accepted.
 
-(* Xavier: bound = scale*sqrt(6/(fan_in+fan_out)), sd = scale*sqrt(2/(fan_in+fan_out)) with the
-   sum formed WITHOUT wrap-around -- for every well-formed matrix shape of fewer than 2^32-1
-   elements, resp. every shape of depth <= 4 with fewer than 2^31 elements (see C17_fan_sum_wraps
-   for what happens at those sizes).  `ratio_exact` reads the double computation narrowed once
-   as exact arithmetic. *)
+(* Xavier: bound = scale*sqrt(6/(fan_in+fan_out)), sd = scale*sqrt(2/(fan_in+fan_out)), the sum
+   formed WITHOUT wrap-around (unbounded N; the code computes it in double, exact below 2^53, and
+   the sums of admissible shapes are below 2^33: C17_conv2d_fans / C17_matrix_fans), for EVERY
+   matrix shape resp. every shape of depth <= 4.  `ratio_exact` reads the double computation
+   narrowed once as exact arithmetic. *)
 Theorem C17_xavier_uniform_formula {T} (O : ops T) (C : conv T)
   (ratio_exact : forall scale c n, scaled_sqrt_ratio C scale c n =
-                   smul O scale (ssqrt O (sdiv O (sof_N O c) (sof_N O n)))) scale s : wf s ->
+                   smul O scale (ssqrt O (sdiv O (sof_N O c) (sof_N O n)))) scale s :
   (is_matrix s = false -> apply_init O C (IXavierUniform scale) s = None) /\
-  (is_matrix s = true -> (volume s < U32MAX)%N ->
+  (is_matrix s = true ->
    let bound := xavier_param O scale 6 (get s 0) (get s 1) in
    apply_init O C (IXavierUniform scale) s = Some (QUniform s (sneg O bound) bound)).
 Proof. exact (xavier_uniform_formula O C ratio_exact scale s). Qed.
@@ -183,31 +190,39 @@ Print Assumptions C17_xavier_uniform_formula.
 
 Theorem C17_xavier_normal_formula {T} (O : ops T) (C : conv T)
   (ratio_exact : forall scale c n, scaled_sqrt_ratio C scale c n =
-                   smul O scale (ssqrt O (sdiv O (sof_N O c) (sof_N O n)))) scale s : wf s ->
+                   smul O scale (ssqrt O (sdiv O (sof_N O c) (sof_N O n)))) scale s :
   (is_matrix s = false -> apply_init O C (IXavierNormal scale) s = None) /\
-  (is_matrix s = true -> (volume s < U32MAX)%N ->
+  (is_matrix s = true ->
    apply_init O C (IXavierNormal scale) s =
    Some (QNormal s (szero O) (xavier_param O scale 2 (get s 0) (get s 1)))).
 Proof. exact (xavier_normal_formula O C ratio_exact scale s). Qed.
 Print Assumptions C17_xavier_normal_formula.
 
-(* the Conv2D fan definition: fan_in = s0*s1*s2, fan_out = s0*s1*s3 (exact, no wrap) *)
+(* the Conv2D fan definition: fan_in = s0*s1*s2, fan_out = s0*s1*s3; for a well-formed shape no
+   partial product exceeds the volume (< 2^32) and the sum is positive and below 2^33, so the
+   double arithmetic of the code is exact and the divisor is not zero *)
 Theorem C17_conv2d_fans s : wf s -> (depth s <= 4)%N ->
   conv_fan_in s = (get s 0 * get s 1 * get s 2)%N /\
   conv_fan_out s = (get s 0 * get s 1 * get s 3)%N /\
-  ((2 * volume s < P32)%N ->
-   conv_fan_sum s = (get s 0 * get s 1 * get s 2 + get s 0 * get s 1 * get s 3)%N).
+  conv_fan_sum s = (get s 0 * get s 1 * get s 2 + get s 0 * get s 1 * get s 3)%N /\
+  (get s 0 * get s 1 <= volume s)%N /\ (conv_fan_in s <= volume s)%N /\ (conv_fan_out s <= volume s)%N /\
+  (0 < conv_fan_sum s < 2 * P32)%N.
 Proof. exact (conv2d_fans s). Qed.
 Print Assumptions C17_conv2d_fans.
 
+Theorem C17_matrix_fans s : wf s -> is_matrix s = true ->
+  fan_sum_2d s = (get s 0 + get s 1)%N /\ (0 < fan_sum_2d s < 2 * P32)%N.
+Proof. exact (matrix_fans s). Qed.
+Print Assumptions C17_matrix_fans.
+
 Theorem C17_xavier_conv2d_formula {T} (O : ops T) (C : conv T)
   (ratio_exact : forall scale c n, scaled_sqrt_ratio C scale c n =
-                   smul O scale (ssqrt O (sdiv O (sof_N O c) (sof_N O n)))) scale s : wf s ->
+                   smul O scale (ssqrt O (sdiv O (sof_N O c) (sof_N O n)))) scale s :
   let fan_in := (get s 0 * get s 1 * get s 2)%N in
   let fan_out := (get s 0 * get s 1 * get s 3)%N in
   ((4 < depth s)%N -> apply_init O C (IXavierUniformConv2D scale) s = None /\
                       apply_init O C (IXavierNormalConv2D scale) s = None) /\
-  ((depth s <= 4)%N -> (2 * volume s < P32)%N ->
+  ((depth s <= 4)%N ->
    let bound := xavier_param O scale 6 fan_in fan_out in
    apply_init O C (IXavierUniformConv2D scale) s = Some (QUniform s (sneg O bound) bound) /\
    apply_init O C (IXavierNormalConv2D scale) s =
@@ -222,16 +237,17 @@ Theorem C17_xavier_param_R scale c fi fo :
 Proof. exact (xavier_param_R scale c fi fo). Qed.
 Print Assumptions C17_xavier_param_R.
 
-(* OBSERVATION (candidate finding): for the admissible shapes {65536,32768} (2^31 elements) and
-   {2^32-1} the uint32 sum fan_in + fan_out is 2^32 = 0, the parameter becomes scale*sqrt(c/0)
-   (= inf in double for scale > 0), and the request uniform(-inf, inf) / normal(0, inf) is
-   accepted (C17_inf_accepted). *)
-Theorem C17_fan_sum_wraps :
-  (exists s, mk_shape [65536; 32768]%N 1 = Some s /\ wf s /\ conv_fan_sum s = 0%N /\
-             conv_fan_in s = 2147483648%N /\ conv_fan_out s = 2147483648%N) /\
-  (exists s, mk_shape [4294967295; 1]%N 1 = Some s /\ wf s /\ is_matrix s = true /\ fan_sum_2d s = 0%N).
-Proof. exact fan_sum_wraps. Qed.
-Print Assumptions C17_fan_sum_wraps.
+(* The form the code had before commit 50d7193 (sums in uint32) is REFUTED: for the admissible
+   shapes {65536,32768} and {2^32-1} the uint32 sum is 0 while the true sum is 2^32 (the
+   parameter became scale*sqrt(c/0) = inf).  Kept as evidence that the no-wrap statements above
+   are not vacuous. *)
+Theorem C17_uint32_fan_sum_refuted :
+  (exists s, mk_shape [65536; 32768]%N 1 = Some s /\ wf s /\ (depth s <= 4)%N /\
+             uint32_conv_fan_sum s = 0%N /\ conv_fan_sum s = 4294967296%N) /\
+  (exists s, mk_shape [4294967295; 1]%N 1 = Some s /\ wf s /\ is_matrix s = true /\
+             uint32_fan_sum_2d s = 0%N /\ fan_sum_2d s = 4294967296%N).
+Proof. exact uint32_fan_sum_refuted. Qed.
+Print Assumptions C17_uint32_fan_sum_refuted.
 
 (* ---- a device constructed with a seed reproduces the same values for the same sequence of
    requests: what a device delivers is a function of its seed and of ITS OWN request sequence;
@@ -287,9 +303,9 @@ Qed.
 
 (* well-formed shapes meeting the Xavier hypotheses, with their fans *)
 Example C17_nonvacuous_fans :
-  (exists s, mk_shape [3; 3; 2; 5]%N 1 = Some s /\ depth s = 4%N /\ (2 * volume s < P32)%N /\
+  (exists s, mk_shape [3; 3; 2; 5]%N 1 = Some s /\ depth s = 4%N /\
              conv_fan_in s = 18%N /\ conv_fan_out s = 45%N /\ conv_fan_sum s = 63%N) /\
-  (exists s, mk_shape [3; 4]%N 1 = Some s /\ is_matrix s = true /\ (volume s < U32MAX)%N /\ fan_sum_2d s = 7%N) /\
+  (exists s, mk_shape [3; 4]%N 1 = Some s /\ is_matrix s = true /\ fan_sum_2d s = 7%N) /\
   (exists s, mk_shape [4; 4]%N 2 = Some s /\ is_matrix s = true /\ get s 0 = get s 1) /\
   (forall scale c n, scaled_sqrt_ratio Rconv scale c n =
      smul Rops scale (ssqrt Rops (sdiv Rops (sof_N Rops c) (sof_N Rops n)))).
